@@ -216,6 +216,11 @@ REF_FCN REF_STATUS ref_sort_unique_int(REF_INT n, REF_INT *original,
 
   *nunique = REF_EMPTY;
 
+  if (n < 1) {
+    *nunique = 0;
+    return REF_SUCCESS;
+  }
+
   RSS(ref_sort_insertion_int(n, original, unique), "sort in unique");
 
   j = 0;
